@@ -16,7 +16,7 @@ import re
 
 from mirlib import BranchFacts, strip, deep_strip, show, walk, const_value
 from rulelib import (
-    bool_facts, facts_at, fmt_path, must_pass, outcome_facts, return_assignments, succeeded_calls, failed_calls,
+    bool_facts, control_terms, facts_at, fmt_path, must_pass, outcome_facts, return_assignments, succeeded_calls, failed_calls,
 )
 import c09
 
@@ -125,7 +125,7 @@ def rule_panic(ctx, F):
                     continue
                 n += 1
                 wire = False
-                for tt, vv, e in facts_at(b, bb, F):
+                for tt in control_terms(b, bb, F):
                     s = show(deep_strip(tt))
                     if re.search(r"qtype|rtype|rcode|opcode|count\(|Header::|ParsedRecord|into_record|to_record|next\(", s):
                         wire = True
